@@ -219,17 +219,18 @@ def _concur_setup(case):
                 out.append(("C01/concurrent/invalid-signature", f"sign(d={d}, z={z}) = ({r},{s}) does not verify when another sign call "
                             f"is interleaved with it"))
         return out
-    return [mk(*j) for j in jobs_], randbelow, judge
+    warm = (lambda: [em.sign(d, z) for d, z in case["warm"]]) if case.get("warm") else None
+    return [mk(*j) for j in jobs_], randbelow, judge, warm
 
 
 def chk_concur(case):
     import secrets
     from vf import concur
-    calls, rb, judge = _concur_setup(case)
+    calls, rb, judge, warm = _concur_setup(case)
     saved = secrets.randbelow
     secrets.randbelow = rb
     try:
-        return concur.replay_calls(calls, ("bits/ecmath.py",), case["choices"], judge)
+        return concur.replay_calls(calls, ("bits/ecmath.py",), case["choices"], judge, warmup=warm)
     finally:
         secrets.randbelow = saved
 
@@ -342,7 +343,7 @@ def jobs(tier, seed):
     js.append({"name": "secp/reuse", "part": "real-reuse", "weight": 10})
     from vf.runner import seq_jobs
     js += seq_jobs(4, curve=list(smallcurve.TABLE[0]), weight=4)
-    for i in range(4):
+    for i in range(6):
         js.append({"name": f"concurrent-sign/{i}", "part": "concur", "curve": list(smallcurve.TABLE[0]), "idx": i, "weight": 6})
     return js
 
@@ -362,12 +363,15 @@ def run_job(job):
         from vf import concur
         C = smallcurve.curve(cv)
         pairs = [[[3, 5, 7], [11, 20, 2]], [[1, 0, 30], [30, 61, 1]], [[7, 7, 7], [7, 7, 7]], [[2, 33, 16], [29, 3, 15]]]
-        case = {"curve": cv, "calls": pairs[job["idx"]]}
-        calls, rb, judge = _concur_setup(case)
+        # idx 4, 5: the same after sequential warm-up calls (a short scalar / an unrelated key first)
+        warms = [[], [], [], [], [[1, 1]], [[5, 9], [1, 0]]]
+        pairs += [pairs[0], pairs[2]]
+        case = {"curve": cv, "calls": pairs[job["idx"]], "warm": warms[job["idx"]]}
+        calls, rb, judge, warm = _concur_setup(case)
         saved = secrets.randbelow
         secrets.randbelow = rb
         try:
-            ex = concur.explore_calls(acc, calls, ("bits/ecmath.py",), 1 if job["tier"] == "quick" else 2, judge, "concur", case)
+            ex = concur.explore_calls(acc, calls, ("bits/ecmath.py",), 1 if job["tier"] == "quick" else 2, judge, "concur", case, warmup=warm)
         finally:
             secrets.randbelow = saved
         acc.ob("concurrent_first_calls", ex.executions)
